@@ -245,6 +245,11 @@ func (c *ewCloud) DescribeNetworkInterface(ctx context.Context, vpcID string, en
 			return nil, errors.New("injected: describe")
 		}
 		e := c.enis[id]
+		if e != nil && instanceType != "" && c.api(e).Type != instanceType {
+			// the cloud filters by the type asked for: an interface of another type is not in the answer
+			w.c.Count("cloud:describe-type-filter-hides-interface")
+			e = nil
+		}
 		switch {
 		case e == nil:
 			w.emit(a.name, fmt.Sprintf("pe.eDescribe %s %d absent", a.name, id), "")
